@@ -43,6 +43,7 @@ using arr3 = fcppt::array::object<T, 3>;
 using arr1 = fcppt::array::object<T, 1>;
 using tup = fcppt::tuple::object<T, T2>;
 using tup1 = fcppt::tuple::object<T3>;
+using tup_tt = fcppt::tuple::object<T, T>; // homogeneous: elements can be confused with each other
 
 FCPPT_RECORD_MAKE_LABEL(label_a);
 FCPPT_RECORD_MAKE_LABEL(label_b);
@@ -56,6 +57,7 @@ arr3 mk_arr3() { return arr3{T(next_tok()), T(next_tok()), T(next_tok())}; }
 arr1 mk_arr1() { return arr1{T(next_tok())}; }
 tup mk_tup() { return tup{T(next_tok()), T2(next_tok())}; }
 tup1 mk_tup1() { return tup1{T3(next_tok())}; }
+tup_tt mk_tup_tt() { return tup_tt{T(next_tok()), T(next_tok())}; }
 rec_ab mk_rec_ab() { return rec_ab{label_a{} = T(next_tok()), label_b{} = T2(next_tok())}; }
 rec_c mk_rec_c() { return rec_c{label_c{} = T3(next_tok())}; }
 
@@ -161,6 +163,7 @@ void tuples()
   {
     constexpr char C = decltype(c)::value;
     run1<C>("tuple::map", true, "tuple2", mk_tup, [&](auto &&a) C05_CALL(fcppt::tuple::map(C05_FWD(a), to_var)));
+    run1<C>("tuple::map", true, "tuple<T,T>", mk_tup_tt, [&](auto &&a) C05_CALL(fcppt::tuple::map(C05_FWD(a), to_var)));
     // tuple::apply static_asserts std::is_same_v over the sizes of ALL tuples, which is only
     // well-formed for exactly two tuples: the unary form cannot be instantiated at all.
     run1<C>("tuple::concat", true, "tuple2", mk_tup, [](auto &&a) C05_CALL(fcppt::tuple::concat(C05_FWD(a))));
@@ -173,6 +176,8 @@ void tuples()
       constexpr char C1 = decltype(c1)::value;
       constexpr char C2 = decltype(c2)::value;
       run2<C1, C2>("tuple::push_back", true, "tuple2+element", mk_tup, [] { return T3(next_tok()); },
+                   [](auto &&a, auto &&b) C05_CALL(fcppt::tuple::push_back(C05_FWD(a), C05_FWD(b))));
+      run2<C1, C2>("tuple::push_back", true, "tuple<T,T>+T", mk_tup_tt, [] { return T(next_tok()); },
                    [](auto &&a, auto &&b) C05_CALL(fcppt::tuple::push_back(C05_FWD(a), C05_FWD(b))));
       run2<C1, C2>("tuple::concat", true, "tuple2+tuple1", mk_tup, mk_tup1,
                    [](auto &&a, auto &&b) C05_CALL(fcppt::tuple::concat(C05_FWD(a), C05_FWD(b))));
